@@ -2554,7 +2554,7 @@ def stage_corr_int(ctx, env):
     n = ctx.scale(150, 3000)
     rng = ctx.rng("corr/int")
     I = env.integer
-    cases, lines = [], []
+    cases, lines, shape_lines, frag_lines, canon_lines = [], [], [], [], []
     for it in range(n):
         r = it % 3
         if r == 0:
@@ -2583,6 +2583,30 @@ def stage_corr_int(ctx, env):
                 impl = "raise:" + type(e).__name__
             cases.append((op, t, t2, impl))
             lines.append(sexp.dumps([op] + args))
+            if op == "intsimp":
+                # the hypothesis of int_norm_nf_closed / int_norm_idem (powers only of atoms), decided
+                # by the driver on every generated input
+                frag_lines.append(sexp.dumps(["isnfi"] + args))
+                # the hypothesis fragI of int_norm_canonical (also: no exponent 0, atoms determined by rank)
+                canon_lines.append(sexp.dumps(["fragi", args[0], args[0]]))
+            if op == "intnormeq":
+                # the hypothesis of int_norm_eq_canonical on the difference lhs - rhs
+                d = ["sub", args[0], args[1]]
+                canon_lines.append(sexp.dumps(["fragi", d, d]))
+            if op == "intsimp" and impl.startswith("("):
+                # the real simp_full output must itself have the normal-form shape isNFI of
+                # int_norm_nf_closed
+                shape_lines.append(sexp.dumps(["isnfishape", sexp.loads(impl)]))
+    shape_out = ctx.lean_driver(EXE, shape_lines, timeout=600) if shape_lines else []
+    for v in (shape_out or []):
+        ctx.count("isnfi:" + v)
+        if v != "T":
+            ctx.broken("correspondence:c10:isnfi", "a simp_full output does not have the normal-form shape isNFI")
+            break
+    for v in (ctx.lean_driver(EXE, frag_lines, timeout=600) if frag_lines else []) or []:
+        ctx.count("int:atomic-powers:" + v.replace(" ", ""))
+    for v in (ctx.lean_driver(EXE, canon_lines, timeout=600) if canon_lines else []) or []:
+        ctx.count("int:fragI:" + v.replace(" ", ""))
     out = ctx.lean_driver(EXE, lines, timeout=1200) if lines else []
     if out is None:
         ctx.broken("correspondence:c10:driver", "model driver unavailable")
@@ -2996,8 +3020,26 @@ MANIFEST = {
             "identical trees, transitivity). "
             "(7) The integer Conv normaliser (simp_full, int_norm_conv, int_norm_eq) is modelled (IntModel.lean) and compared tree "
             "for tree with the real conversions' right-hand sides: int_norm_sound (value preserved in Z), int_norm_eq_sound (the "
-            "returned lhs = 0 is equivalent to a = b), int_norm_canonical_partial (normal form has the polynomial of the term; same "
-            "normal form => same polynomial). NOT proved: same polynomial => same normal form. "
+            "returned lhs = 0 is equivalent to a = b), int_norm_poly_invariant (normal form has the polynomial of the term; same "
+            "normal form => same polynomial). Towards the converse, along the nat template: the model's order on numeral exponents and "
+            "on monomial bodies (fast_compare: lexicographic size / function-part size / head / structure with base rank and numeral "
+            "exponent; tied by the intsimp stream) is proved a strict total order (int_numCmp_total, int_bodyCmp_total: swap, eq only "
+            "on identical bodies, transitivity); CLOSURE int_norm_nf_closed (simp_full returns 0 or a strictly increasing sum of "
+            "monomials c * body, c != 0, with strictly increasing atomic bases; norm_add_monomial / norm_add_polynomial / subtraction "
+            "/ norm_mult_polynomials keep that shape, also when coefficients cancel; int_mult_monomial_closed for the multiplicative "
+            "layer) and IDEMPOTENCE int_norm_idem (simp_full rebuilds a normal form from its displayed presentation, so "
+            "int_norm_conv applied to its own result changes nothing) -- on terms whose powers have atomic bases (atomicPowers; "
+            "decided by the driver op isnfi on every generated input, and every real simp_full output is checked against the shape "
+            "isNFI by the driver op isnfishape). CANONICITY int_norm_canonical: on the fragment fragI (powers only of atoms, no "
+            "exponent 0 -- model and code both keep i ^ 0, normal form i ^ 0 and not 1, example in PropsInt.lean --, atoms "
+            "determined by their rank; decided by the driver op fragi on every generated input) two integer terms have the same "
+            "simp_full / int_norm_conv normal form exactly when they have the same value under every valuation (a normal form is "
+            "determined by its polynomial: exponent vectors of bodies, coefficients of monomials, strictly sorted lists). "
+            "int_norm_eq_canonical: equations whose differences lhs - rhs agree under every valuation (terms moved across =), and "
+            "equations whose differences are negatives of each other (overall sign: b = a, -a = -b), get the identical int_norm_eq "
+            "result (multiplying a normal form by -1 negates the coefficients in place, and the first-coefficient test picks the "
+            "same representative) -- same fragment, on the two differences. int_norm_poly_invariant: the normal form has the "
+            "convert_to_poly list of the term. "
             "For (6) and (7) canonicity is compared against the independent exact-rational evaluator on cancellation-rich pairs "
             "every run, as are the decisions of nat_norm, real_norm, int_eq_macro and int_norm_eq; proplogic.norm_full / sort_conj / "
             "sort_disj on member sets (oracle only). Fast evaluation against checked proof term for every Conv class overriding "
